@@ -51,5 +51,12 @@ CHECKS.update({
    technique=MB + "bounded-exhaustive replay of TLC-generated (text, range) pairs into error.rs listing + planted-fault replay on TLC-enumerated sentences and programs"),
 })
 
+CHECKS.update({
+ "C12": dict(level="model_checking", design_ref="DESIGN.md section 4, C12",
+   text="TLC generates (pattern, instance) pairs by punching holes at every position and every shift into every well-typed program up to the size bound (one and two holes, shared identities, both sides, occurs-check configurations, reflexive/reduct pairs); the real unify is called on real terms with one shared cell per hole in both argument orders, and each recorded call (terms before, result, cell contents after) is judged by TLC with the property's own predicates: acyclic store, scope safety of every solution at its hole's home depth, definitional equality after filling the holes.",
+   note="Trusted: Res / Occs / Conv of the specification as the meaning of 'filling the holes makes the terms definitionally equal'. Hosts <= 4 nodes (quick) / 5 (thorough), without divergent definitions. Empty definitions context (contexts with definitions are C18's subject).",
+   technique=MB + "TLC-generated hole-punched pairs driven through unifier.rs, TLC trace validation of every recorded unification against declarative predicates"),
+})
+
 PENDING = "check not built yet in this session (planned in DESIGN.md section 4); will be claimed once its TLA+ model and conformance harness exist"
 NOT_APPLICABLE = {p: PENDING for p in ["C%02d" % i for i in range(1, 20)]}
